@@ -2,6 +2,7 @@ package dagsync
 
 import (
 	"context"
+	"fmt"
 
 	"github.com/ipfs/go-cid"
 	cidlink "github.com/ipld/go-ipld-prime/linking/cid"
@@ -23,10 +24,11 @@ func c04inject(v *vSub, kind int, n int) (ctx context.Context) {
 	ctx = context.Background()
 	switch kind {
 	case c04HeadErr:
-		v.sy.headErr = errModelFault
+		v.sy.headErr = c04faultErr()
 	case c04SyncFault:
 		v.sy.failSync = verif_Choose("faultAtSyncCall", 1, n)
 		v.sy.failAt = verif_Choose("faultAtBlock", 1, n)
+		v.sy.faultErr = c04faultErr()
 	case c04HookFail:
 		v.failHookAt = verif_Choose("hookFailsAtCall", 1, n)
 	case c04Cancelled:
@@ -35,6 +37,20 @@ func c04inject(v *vSub, kind int, n int) (ctx context.Context) {
 		ctx = c
 	}
 	return ctx
+}
+
+// the error of an injected transport fault: a plain error, the HTTP client's own
+// time limit on a stalled response (matches context.DeadlineExceeded), or a
+// request the transport reports as cancelled — none of them means that the
+// subscriber is shutting down
+func c04faultErr() error {
+	switch verif_Choose("faultError", 0, 2) {
+	case 1:
+		return fmt.Errorf("model: fetch failed: %w", vTimeoutErr{})
+	case 2:
+		return fmt.Errorf("model: fetch failed: %w", context.Canceled)
+	}
+	return errModelFault
 }
 
 func c04clear(v *vSub) {
